@@ -47,8 +47,6 @@ Check C02_move_readable : forall ax e dir c sm s r sl o i,
   report_ok s r -> wf s -> victims_regular s (run_cmds ax (OpMove dir) c sm s r) ->
   let cs := map (fcmd_of e) (run_cmds ax (OpMove dir) c sm s r) in
   forall cs', Permutation cs cs' ->
-  (forall x, In x (run_cmds ax (OpMove dir) c sm s r) ->
-     forall y, names s (norm (move_target dir (mpath (cmd_victim x)))) <> Some (NLink y)) ->
   let out := run_script sl o i cs' s in
   forall fc res, In (fc, res) (combine cs' (sresults out)) -> res = IOk ->
   forall i0 d0, names s (victim fc) = Some (NFile i0) -> inodes s i0 = Some d0 ->
